@@ -191,7 +191,6 @@ def rat_plan(tier):
             [(s, n) for n in (32, 33) for s in ("simple",)] + [("simplepiv", 33)],
             [(s, 33) for s in ("ut", "lut")] + [("ut", 32), ("lut", 32)],
             [("simple", 65)],
-            [("blocklu", 33)],
         ]
     else:
         tus = []
@@ -203,7 +202,7 @@ def rat_plan(tier):
             tus.append([(s, n) for s in ("ut", "lut")])
             tus.append([(s, n) for s in ("simplelu", "simplelupiv")])
         for n in (32, 33):
-            tus.append([(s, n) for s in ("blocklu", "blocklupiv")])
+            tus.append([(s, n) for s in ("blocklu", "blocklupiv")])   # block LU above 32: tinverse<UniLower>/<Upper> on real LU factors
         for n in (64, 65):
             tus.append([("simple", n), ("simplepiv", n)])
             tus.append([("ut", n), ("lut", n)])
@@ -315,9 +314,9 @@ def real_groups(tier, seed):
         for t in ("float", "double"):
             calls = []
             if tier == "quick":
-                sizes = [(s, n) for n in (2, 3, 4, 5, 8, 9, 17) for s in ("simple", "simplepiv")]
-                sizes += [(s, n) for n in (3, 7, 9) for s in ("simplelu", "blocklupiv")] + [("blocklu", 12), ("simplelupiv", 6)]
-                sizes += [(s, n) for n in (4, 9) for s in ("ut", "lut")] + [("simple", 33)]
+                sizes = [(s, n) for n in (2, 3, 4, 5, 8, 9) for s in ("simple", "simplepiv")] + [("simple", 17)]
+                sizes += [("simplelu", 3), ("simplelu", 7), ("blocklupiv", 9), ("blocklu", 9), ("simplelupiv", 6)]
+                sizes += [(s, n) for n in (4, 9) for s in ("ut", "lut")]
             else:
                 sizes = [(s, n) for n in list(range(1, 21)) + [32, 33] for s in STRATS] + [("simple", 64), ("simple", 65), ("simplepiv", 65)]
             for (s, n) in sizes:
